@@ -250,3 +250,29 @@ func TestPruningPreservesOutcomes(t *testing.T) {
 		t.Fatalf("pruning did not reduce work: %d vs %d", st2.Executions, st1.Executions)
 	}
 }
+
+// A receive from a full buffered channel lets the longest-waiting sender's
+// value into the freed slot in the same step, as the runtime does: len(ch)
+// observed right after the receive is still cap(ch) when a sender was ahead,
+// and the values keep their order.
+func TestRecvFromFullBufferAdmitsBlockedSender(t *testing.T) {
+	o, _ := outcomes(t, 8, func(rec func(string)) {
+		ch := make(chan int, 2)
+		Go("p", func() { Send(ch, 1); Send(ch, 2); Send(ch, 3); Send(ch, 4) })
+		v := Recv(ch)
+		rec(fmt.Sprintf("%d/len=%d", v, Len(ch)))
+		rec(fmt.Sprint(Recv(ch), Recv(ch), Recv(ch)))
+	})
+	sawFull := false
+	for k := range o {
+		if !strings.Contains(k, "2 3 4|"+EndAllDone) {
+			t.Fatalf("order lost: %v", keys(o))
+		}
+		if strings.HasPrefix(k, "1/len=2,") {
+			sawFull = true
+		}
+	}
+	if !sawFull {
+		t.Fatalf("no execution in which the blocked sender refilled the buffer at the receive: %v", keys(o))
+	}
+}
